@@ -20,6 +20,9 @@ package main
 //                    of a method body, outside function literals and outside the right operand of && / ||
 //                    (package dir, caller, callee)
 //
+//   genPkgVars     : every package-level `var` of cmd/shoot and internal/** (non-test files): state that could outlive a type
+//                    without being a Generator field (directory, file, name, type or "= initialiser")
+//
 // Used by ShootVerif/Props/C08.lean: every field must be classified (config / reset / derived / carried) and the
 // classification must agree with where the field is written.
 
@@ -516,6 +519,72 @@ func emitGenState(repo string) {
 			sep = ""
 		}
 		fmt.Printf("  (%s, %s, %s)%s\n", detLeanStr(c.pkg), detLeanStr(c.caller), detLeanStr(c.callee), sep)
+	}
+	fmt.Println("]")
+	emitPkgVars(repo)
+}
+
+func emitPkgVars(repo string) {
+	type pv struct{ dir, file, name, typ string }
+	var vars []pv
+	var dirs []string
+	for _, root := range []string{"cmd", "internal"} {
+		filepath.Walk(filepath.Join(repo, root), func(p string, fi os.FileInfo, err error) error {
+			if err == nil && fi.IsDir() {
+				dirs = append(dirs, p)
+			}
+			return nil
+		})
+	}
+	sort.Strings(dirs)
+	for _, d := range dirs {
+		rel, _ := filepath.Rel(repo, d)
+		if strings.HasPrefix(rel, filepath.Join("cmd", "test")) {
+			continue
+		}
+		ents, _ := filepath.Glob(filepath.Join(d, "*.go"))
+		sort.Strings(ents)
+		for _, fn := range ents {
+			if strings.HasSuffix(fn, "_test.go") || strings.HasSuffix(fn, "verif_export.go") {
+				continue
+			}
+			fset := token.NewFileSet()
+			pf, err := parser.ParseFile(fset, fn, nil, 0)
+			if err != nil {
+				fmt.Fprintln(os.Stderr, "facts: pkgvars:", err)
+				os.Exit(1)
+			}
+			for _, dcl := range pf.Decls {
+				gd, ok := dcl.(*ast.GenDecl)
+				if !ok || gd.Tok != token.VAR {
+					continue
+				}
+				for _, sp := range gd.Specs {
+					vs := sp.(*ast.ValueSpec)
+					typ := ""
+					if vs.Type != nil {
+						typ = detExprText(fset, vs.Type)
+					} else if len(vs.Values) > 0 {
+						typ = "= " + detExprText(fset, vs.Values[0])
+						if len(typ) > 60 {
+							typ = typ[:60]
+						}
+					}
+					for _, n := range vs.Names {
+						vars = append(vars, pv{rel, filepath.Base(fn), n.Name, typ})
+					}
+				}
+			}
+		}
+	}
+	fmt.Println("\n/-- (directory, file, name, type or initialiser) of every package-level `var` of cmd/shoot and internal/** -/")
+	fmt.Println("def genPkgVars : List (String × String × String × String) := [")
+	for i, v := range vars {
+		sep := ","
+		if i == len(vars)-1 {
+			sep = ""
+		}
+		fmt.Printf("  (%s, %s, %s, %s)%s\n", detLeanStr(v.dir), detLeanStr(v.file), detLeanStr(v.name), detLeanStr(v.typ), sep)
 	}
 	fmt.Println("]")
 }
